@@ -6,11 +6,13 @@ import random
 class Prop(PoolProp):
     pid = "C02"
     focus = "termination"
-    real_scenarios = ("late_exhaustion", "late_items_flow_control", "factory_quota_two_calls", "factory_quota_bounded")
+    real_scenarios_quick = ("d19_late_retirement", "late_exhaustion")
+    real_scenarios = ("late_exhaustion", "late_items_flow_control", "factory_quota_two_calls", "factory_quota_bounded",
+                      "d19_late_retirement")
     rule = ("as C01, with schedules biased to starve the feeding thread (late exhaustion of the input), the consumer or the "
             "workers, and bounded result queues that trigger flow control; oracle: the run ends with every thread finished (no "
-            "state in which no thread can move while the caller has not finished), incl. leaving the pool context; the D19 "
-            "configuration is run every time and reported as KNOWN-FINDING; non-trivial = at least 20 steps with a non-empty call")
+            "state in which no thread can move while the caller has not finished), incl. leaving the pool context (the witness "
+            "of the repaired D19 runs first every time); non-trivial = at least 20 steps with a non-empty call")
 
     def gen_chooser(self, rng):
         if rng.random() < 0.35:
@@ -25,4 +27,4 @@ class Prop(PoolProp):
                 (Cfg(n_workers=2, calls=[(2, 1, False), (0, 1, True)]), ("starve", 2, "F"), chooser_starve(random.Random(2), "F"),
                  "D16 on imap_unordered and an empty call"),
                 (Cfg(n_workers=2, factory=True, quota=1, work_cap=1, calls=[(2, 1, True)]), ("roles", "CRFW", "after_put", True),
-                 chooser_roles("CRFW", "after_put", True), "D19: exit blocks on its stop orders (known finding)")]
+                 chooser_roles("CRFW", "after_put", True), "D19 (repaired): unreplaced retirements at the end of the last call, work-queue bound below the worker count")]
